@@ -198,7 +198,7 @@ def run(prop, args):
     N = 10 if args.tier == "quick" else 24
     rep.exhaustive = [{"box": "every class variant, n<=%d, all unit counts 0..n+1 (HRevolve RAM<=6, DISK<=4), all splits/trajectories/storages, period<=6, binomial_snapshots<=4, 6 cost vectors" % N,
                        "cases": len(boxcfgs) - 4, "exhaustive": True},
-                      {"box": "large-n probes, each in a pristine process (cold memo tables): 19 configs per n in %s" % (list(C.LARGE_N) + ([] if args.tier == "quick" else [401, 512, 513, 2000])),
+                      {"box": "large-n probes, each in a pristine process (cold memo tables): 19 configs per n in %s, plus 10 many-units probes (hundreds of checkpointing units)" % (list(C.LARGE_N) + ([] if args.tier == "quick" else [401, 512, 513, 2000])),
                        "cases": len(list(C.large_n_probes(args.tier))), "exhaustive": True},
                       {"box": "deep repetition probes: %d adjoint passes (beyond the default recursion limit) on SingleMemory, SingleDisk(copy), TwoLevel x2" % (
                           1300 if args.tier == "quick" else 5000), "cases": 4, "exhaustive": True}]
